@@ -566,6 +566,19 @@ func (e *Env) binary(x SBinary) SVal {
 		}
 		return SVal{T: r, Typ: tBool}
 	case "<", "<=", ">", ">=":
+		if a.T.Sort == SStr && b.T.Sort == SStr {
+			// strings: the same uninterpreted order the code's comparisons use (str_lt)
+			lt, gt := App("str_lt", SBool, a.T, b.T), App("str_lt", SBool, b.T, a.T)
+			switch x.Op {
+			case "<":
+				return SVal{T: lt, Typ: tBool}
+			case ">":
+				return SVal{T: gt, Typ: tBool}
+			case "<=":
+				return SVal{T: Not(gt), Typ: tBool}
+			}
+			return SVal{T: Not(lt), Typ: tBool}
+		}
 		return SVal{T: Cmp(x.Op, a.T, b.T), Typ: tBool}
 	case "+":
 		if a.T.Sort == SStr {
@@ -650,7 +663,8 @@ func (e *Env) call(x SCall) SVal {
 					return SVal{T: IntLit(int64(len(tb.Entries))), Typ: tInt}
 				}
 				_, _, hl := e.p.mapHeaps(mt)
-				return SVal{T: Select(e.cur.H(e.p, hl), v.T), Typ: tInt}
+				// as in the code (calls.go, builtin len): a nil map has length 0
+				return SVal{T: Ite(Eq(v.T, IntLit(0)), IntLit(0), Select(e.cur.H(e.p, hl), v.T)), Typ: tInt}
 			}
 		}
 		efail("len of unsupported value")
